@@ -6,6 +6,7 @@
 // opn2_rt_bankChange* / mode SysEx / GS drum-part SysEx and predicts, for every note-on, the slot (or silence) and, on percussion
 // channels, the pitch (drum key) — compared with the register writes and the return value of the call.
 #include "vlib.hpp"
+#include "vsmf.hpp"
 
 static const char *harness_name() { return "c12_banksel"; }
 static void harness_init() {}
@@ -216,7 +217,9 @@ struct Drv
     Case &c; OPN2_MIDIPlayer *dev; Tap tap; Model M; bool wopn_route; int initial_mode;
     std::vector<std::pair<int, int> > sounding;    // (channel, key) the harness holds down
     long resolved;
-    Drv(Case &c_): c(c_), dev(NULL), wopn_route(false), initial_mode(0), resolved(0) {}
+    bool live;               // false: the events reach the library through a file; the ev_* calls only move the model
+    const char *route;
+    Drv(Case &c_): c(c_), dev(NULL), wopn_route(false), initial_mode(0), resolved(0), live(true), route(NULL) {}
 
     bool lib_quiet()
     {
@@ -375,14 +378,14 @@ struct Drv
     // ---- events ------------------------------------------------------------------------
     void ev_cc(int ch, int cc, int v)
     {
-        API("opn2_rt_controllerChange", opn2_rt_controllerChange(dev, (uint8_t)ch, (uint8_t)cc, (uint8_t)v));
+        if(live) API("opn2_rt_controllerChange", opn2_rt_controllerChange(dev, (uint8_t)ch, (uint8_t)cc, (uint8_t)v));
         ChanModel &m = M.ch[ch];
         if(cc == 0) { m.msb = v; m.msb_via = "cc0"; } else m.lsb = v;
         m.either_X = false;
         if(M.mode != MODE_GS) m.either_D = m.D && !(m.msb == 126 || m.msb == 127);
         m.log(vfmt("CC%d=%d", cc, v));
     }
-    void ev_prog(int ch, int p) { API("opn2_rt_patchChange", opn2_rt_patchChange(dev, (uint8_t)ch, (uint8_t)p)); M.ch[ch].prog = p; M.ch[ch].log(vfmt("PC=%d", p)); }
+    void ev_prog(int ch, int p) { if(live) API("opn2_rt_patchChange", opn2_rt_patchChange(dev, (uint8_t)ch, (uint8_t)p)); M.ch[ch].prog = p; M.ch[ch].log(vfmt("PC=%d", p)); }
     void ev_bank_api(int ch, int which, int msb, int lsb)
     {
         ChanModel &m = M.ch[ch];
@@ -451,19 +454,24 @@ struct Drv
     // ---- the monitored call ------------------------------------------------------------
     void ev_noteon(Rng &r, int ch, int key)
     {
+        tap.log.clear();
+        int rc = -99;
+        API("opn2_rt_noteOn", rc = opn2_rt_noteOn(dev, (uint8_t)ch, (uint8_t)key, 100));
+        Obs o = observe(tap, 0, tap.log.size(), rc);
+        judge_noteon(r, ch, key, rc, o);
+    }
+    // o: what the call that delivered the note-on wrote; rc: its return value (file-driven: 1 if a key-on was seen, else 0)
+    void judge_noteon(Rng &r, int ch, int key, int rc, const Obs &o)
+    {
         const Role role = role_of(M, ch);
         Expect em, ep;
         if(role != R_PERC) em = expect_melodic(M, ch);
         if(role != R_MEL) ep = expect_percussion(M, ch, key);
         const ChanModel &m = M.ch[ch];
-        tap.log.clear();
-        int rc = -99;
-        API("opn2_rt_noteOn", rc = opn2_rt_noteOn(dev, (uint8_t)ch, (uint8_t)key, 100));
-        Obs o = observe(tap, 0, tap.log.size(), rc);
         resolved++; count("noteons_resolved"); count("register_writes_decoded", (long long)tap.log.size());
         c.nontrivial = true;
 
-        std::string ctx = vfmt("mode %s ch%d msb=%d(%s) lsb=%d prog=%d key=%d role=%s; recent:", mode_name(M.mode), ch, m.msb, m.msb_via, m.lsb, m.prog, key,
+        std::string ctx = vfmt("%smode %s ch%d msb=%d(%s) lsb=%d prog=%d key=%d role=%s; recent:", route ? route : "", mode_name(M.mode), ch, m.msb, m.msb_via, m.lsb, m.prog, key,
                                role == R_MEL ? "melodic" : role == R_PERC ? "percussion" : "either");
         for(size_t i = 0; i < m.hist.size(); i++) ctx += " " + m.hist[i];
         const char *flavour = role == R_MEL ? "mel" : role == R_EITHER ? "either" : ch == 9 ? ((M.mode == MODE_XG && m.msb == 0x7E) ? "perc-ch10-sfx" : "perc-ch10") :
@@ -481,7 +489,7 @@ struct Drv
         }
         if(ok)
         {
-            cover(vfmt("%s|%s|%s|%s|%s", mode_name(M.mode), flavour, hit->step.c_str(), hit->pattern.c_str(), wopn_route ? "wopn" : "api"));
+            cover(vfmt("%s|%s|%s|%s|%s%s", mode_name(M.mode), flavour, hit->step.c_str(), hit->pattern.c_str(), wopn_route ? "wopn" : "api", live ? "" : "|file"));
             count((std::string("resolved_") + (hit_perc ? "percussion_" : "melodic_") + hit->step).c_str());
             if(role == R_EITHER) count("resolved_with_three_valued_role");
             if(!hit->silent) sounding.push_back(std::make_pair(ch, key));
@@ -544,8 +552,145 @@ struct Drv
 };
 
 // ------------------------------------------------------------------------------------------
+// stage multidev: the same resolution rules for songs whose tracks name several MIDI devices (FF 09): every device has its own
+// sixteen channels (bank selects, programs, channel 10 = percussion), and the events arrive through the sequencer
+// ------------------------------------------------------------------------------------------
+struct MdOp { uint64_t tick; int track; int kind; int ch, a, b; };    // kind 0 CC, 1 program, 2 note-on, 3 note-off, 4 device name (a = name index)
+struct MdHook { std::vector<MdOp> seen; };
+static void md_hook(void *ud, OPN2_UInt8 type, OPN2_UInt8 subtype, OPN2_UInt8 channel, const OPN2_UInt8 *data, size_t len)
+{
+    MdHook *h = (MdHook *)ud; MdOp o; o.tick = 0; o.track = -1; o.ch = channel; o.a = len > 0 ? data[0] : -1; o.b = len > 1 ? data[1] : -1;
+    if(type == 0xB) o.kind = 0; else if(type == 0xC) o.kind = 1; else if(type == 0x9) o.kind = 2; else if(type == 0x8) o.kind = 3; else if(type == 0xFF && subtype == 0x09) o.kind = 4; else return;
+    h->seen.push_back(o);
+}
+static void stage_multidev(Case &c)
+{
+    Rng &r = c.rng;
+    Drv d(c);
+    d.wopn_route = (c.k % 2) == 1;
+    API("opn2_init", d.dev = opn2_init(r.chance(0.5) ? 44100 : 22050));
+    if(!d.dev) { c.violation("oracle:init-failed", "opn2_init returned NULL"); return; }
+    OPN2_MIDIPlayer *dev = d.dev;
+    d.tap.keep_log = true; d.tap.attach(dev);
+    int rc = 0;
+    API("opn2_switchEmulator", rc = opn2_switchEmulator(dev, r.chance(0.5) ? 0 : 2));
+    API("opn2_setNumChips", rc = opn2_setNumChips(dev, r.range(2, 3)));
+    if(!d.install(r)) { if(!g_w.violations_in_case) c.inconclusive = true; Tap::detach(dev); API("opn2_close", opn2_close(dev)); return; }
+
+    std::vector<int> msbs, lsbs, progs, keys;
+    for(std::map<unsigned, MBank>::iterator i = d.M.mel.begin(); i != d.M.mel.end(); ++i) { msbs.push_back((int)(i->first >> 8)); lsbs.push_back((int)(i->first & 127)); }
+    msbs.push_back(0); msbs.push_back(r.below(128)); lsbs.push_back(0); lsbs.push_back(r.below(128));
+    for(std::map<unsigned, MBank>::iterator i = d.M.perc.begin(); i != d.M.perc.end(); ++i) progs.push_back((int)(i->first & 127));
+    for(int i = 0; i < 4; i++) progs.push_back((int)r.below(128));
+    progs.push_back(0);
+    for(int i = 0; i < 5; i++) keys.push_back(r.range(0, 127));
+    keys.push_back(r.range(35, 81));
+
+    // the song: track 0 = tempo; every other track names its device first; one event per tick over all tracks
+    static const char *names[] = {"Port A", "Port B", "MPU-401", "SC-88 part B", "x"};
+    const int ndev = r.range(2, 4), ntr = r.range(2, 5);
+    std::vector<int> dev_of_track((size_t)ntr + 1, 0);
+    Song song; song.format = 1; song.division = 96; song.running_status = r.chance(0.5);
+    song.tracks.resize((size_t)ntr + 1);
+    song.tracks[0].ev.push_back(mk_tempo(0, 500000));
+    std::vector<MdOp> ops;
+    int name_base = (int)r.below(5);
+    for(int t = 1; t <= ntr; t++)
+    {
+        dev_of_track[(size_t)t] = t <= ndev ? (t - 1) % ndev : (int)r.below((uint32_t)ndev);
+        const char *nm = names[(name_base + dev_of_track[(size_t)t]) % 5];
+        song.tracks[(size_t)t].ev.push_back(mk_meta_text(0, 0x09, nm));
+        MdOp o; o.tick = 0; o.track = t; o.kind = 4; o.ch = 0; o.a = dev_of_track[(size_t)t]; o.b = 0; ops.push_back(o);
+    }
+    uint64_t tick = 0;
+    const int nev = r.range(40, 120);
+    for(int i = 0; i < nev; i++)
+    {
+        MdOp o; o.track = 1 + (int)r.below((uint32_t)ntr); o.tick = (tick += (uint64_t)r.range(1, 3));
+        o.ch = r.chance(0.35) ? 9 : (int)r.below(16); o.a = o.b = 0;
+        unsigned k = r.below(100);
+        if(k < 45)
+        {
+            o.kind = 2; o.a = r.chance(0.85) ? r.pick(keys) : r.range(0, 127); o.b = 100;
+            song.tracks[(size_t)o.track].ev.push_back(mk_chan(o.tick, 0x90 | o.ch, o.a, 100)); ops.push_back(o);
+            MdOp f = o; f.kind = 3; f.tick = (tick += 1); f.b = 0;
+            song.tracks[(size_t)f.track].ev.push_back(mk_chan(f.tick, 0x80 | f.ch, f.a, 0)); ops.push_back(f);
+            continue;
+        }
+        if(k < 62) { o.kind = 0; o.a = 0; o.b = r.chance(0.85) ? r.pick(msbs) : (int)r.below(128); }
+        else if(k < 75) { o.kind = 0; o.a = 32; o.b = r.chance(0.85) ? r.pick(lsbs) : (int)r.below(128); }
+        else { o.kind = 1; o.a = r.chance(0.8) ? r.pick(progs) : (int)r.below(128); o.b = -1; }
+        song.tracks[(size_t)o.track].ev.push_back(o.kind == 0 ? mk_chan(o.tick, 0xB0 | o.ch, o.a, o.b) : mk_chan(o.tick, 0xC0 | o.ch, o.a));
+        ops.push_back(o);
+    }
+    tick += 2;
+    for(int t = 0; t <= ntr; t++) song.tracks[(size_t)t].ev.push_back(mk_meta(tick, 0x2F, std::vector<uint8_t>()));
+    std::vector<uint8_t> file = serialize_song(song);
+    { ExactBuf in(file); API("opn2_openData", rc = opn2_openData(dev, in.p, (unsigned long)in.n)); }
+    if(rc != 0 && d.M.mel.empty() && d.M.perc.empty()) { count("multidev_no_bank_installed"); Tap::detach(dev); API("opn2_close", opn2_close(dev)); return; }   // nothing to play from: refusing the song is the documented answer
+    if(rc != 0) { c.violation("oracle:C12:wellformed-file-rejected", vfmt("generated multi-device SMF (%zu bytes, %d tracks) rejected: %s", file.size(), ntr + 1, opn2_errorInfo(dev))); Tap::detach(dev); API("opn2_close", opn2_close(dev)); return; }
+    d.M.mode = (int)P(dev)->m_synthMode;      // the statement does not name the mode after a load: adopt
+    d.initial_mode = d.M.mode;
+    if(d.M.mode != MODE_GM && d.M.mode != MODE_GS && d.M.mode != MODE_XG) { c.inconclusive = true; Tap::detach(dev); API("opn2_close", opn2_close(dev)); return; }
+    d.live = false;
+    MdHook hook;
+    API("opn2_setRawEventHook", opn2_setRawEventHook(dev, md_hook, &hook));
+    std::vector<std::vector<ChanModel> > devstate((size_t)ndev, std::vector<ChanModel>(16));
+    size_t next = 0; double delay = 0; long guard = 0; bool lost = false;
+    std::set<int> devs_with_drum_notes;
+    while(guard++ < 5000 && !lost && g_w.violations_in_case < 6)
+    {
+        hook.seen.clear(); d.tap.log.clear();
+        double nd = 0; API("opn2_tickEvents", nd = opn2_tickEvents(dev, delay, 1e-6));
+        delay = nd;
+        int noteons = 0;
+        for(size_t i = 0; i < hook.seen.size() && !lost; i++) if(hook.seen[i].kind == 2) noteons++;
+        if(noteons > 1) { lost = true; break; }
+        for(size_t i = 0; i < hook.seen.size() && !lost; i++)
+        {
+            const MdOp &s = hook.seen[i];
+            // device names of tick 0 arrive in track order; everything else has its own tick
+            if(next >= ops.size()) { lost = true; break; }
+            const MdOp &o = ops[next];
+            if(o.kind != s.kind || (o.kind != 4 && (o.ch != s.ch || o.a != s.a))) { lost = true; break; }
+            next++;
+            const int dv = dev_of_track[(size_t)o.track];
+            if(o.kind == 4) continue;
+            for(int ch = 0; ch < 16; ch++) d.M.ch[ch] = devstate[(size_t)dv][(size_t)ch];
+            std::string route = vfmt("[file, track %d, device %d of %d] ", o.track, dv + 1, ndev);
+            d.route = route.c_str();
+            if(o.kind == 0) d.ev_cc(o.ch, o.a, o.b);
+            else if(o.kind == 1) d.ev_prog(o.ch, o.a);
+            else if(o.kind == 2)
+            {
+                Obs ob = observe(d.tap, 0, d.tap.log.size(), 1);
+                int rcn = ob.keyons >= 1 ? 1 : 0;
+                d.judge_noteon(r, o.ch, o.a, rcn, ob);
+                d.sounding.clear();
+                count("file_noteons_resolved");
+                if(dv > 0) count("file_noteons_on_a_further_device");
+                if(o.ch == 9) devs_with_drum_notes.insert(dv);
+            }
+            d.route = NULL;
+            for(int ch = 0; ch < 16; ch++) devstate[(size_t)dv][(size_t)ch] = d.M.ch[ch];
+        }
+        int end = 0; API("opn2_atEnd", end = opn2_atEnd(dev));
+        if(end) break;
+    }
+    if(lost) { c.inconclusive = true; count("multidev_delivery_not_as_in_the_file"); }
+    else if(next != ops.size() && g_w.violations_in_case == 0) { c.inconclusive = true; count("multidev_song_not_played_to_its_end"); }
+    cover(vfmt("multidev|devices%d|drumdevs%zu", ndev, devs_with_drum_notes.size()));
+    c.sig = vfmt("md|%d|%d", ndev, ntr);
+    c.sample(vfmt("{\"stage\":\"multidev\",\"devices\":%d,\"tracks\":%d,\"events\":%zu,\"noteons_resolved\":%ld,\"file_bytes\":%zu}", ndev, ntr + 1, ops.size(), d.resolved, file.size()));
+    API("opn2_setRawEventHook", opn2_setRawEventHook(dev, NULL, NULL));
+    Tap::detach(dev);
+    API("opn2_close", opn2_close(dev));
+}
+
+// ------------------------------------------------------------------------------------------
 static void run_case(Case &c)
 {
+    if(g_w.stage == "multidev") { stage_multidev(c); return; }
     Rng &r = c.rng;
     Drv d(c);
     d.wopn_route = (c.k % 2) == 1;
